@@ -129,7 +129,6 @@ pub fn c04_q_step_eventdecoder() {
 /// Thorough: three symbolic events from new(), compared with the statement's direct reading
 /// (held iff most recent event of that key was a press; locks = parity of counted presses).
 #[kani::proof]
-#[kani::unwind(300)]
 pub fn c04_t_three_events() {
     let calls = Cell::new(0);
     let h = any_mode();
